@@ -1,7 +1,7 @@
 INIT SimInit
 NEXT SimNext
 CONSTANTS
-  FailsOn = FALSE
+  FailScope = "ordinary"
   Depth = 1
 INVARIANT Emit
 CHECK_DEADLOCK FALSE
